@@ -380,10 +380,24 @@ theorem numeric_formula (c : Desc) (syms : List Sym) (fixed : Option Int) (v : I
   have : ¬ syms.length < 2 := by omega
   simp [step3, hs, this, hv]
 
-theorem numeric_zero_formula (c : Desc) (s : Sym) (syms : List Sym) (fixed : Option Int) (isNeg : Bool)
-    (hs : c.symbols = some (s :: syms)) :
-    step3 c "numeric" fixed 0 isNeg = .initial s.text := by
-  simp [step3, hs]
+theorem numeric_zero_formula (c : Desc) (syms : List Sym) (fixed : Option Int) (isNeg : Bool)
+    (hs : c.symbols = some syms) (hk : 2 ≤ syms.length) :
+    step3 c "numeric" fixed 0 isNeg = .initial (symAt syms 0) := by
+  have : ¬ syms.length < 2 := by omega
+  simp [step3, hs, this]
+
+/-- `original_value`: what step 3 hands to its `decimal` and `fallback` exits of the four sign-using
+systems is the value `render_value` was called with. -/
+private theorem orig_value (system : String) (value : Int) (hu : usesNegative system = true) :
+    (if decide (value < 0) = true then -(step3Value system value) else step3Value system value) = value := by
+  unfold step3Value
+  by_cases hneg : value < 0
+  · simp [hneg, hu]
+  · simp [hneg]
+
+private theorem step3Value_plain (system : String) (value : Int) (hu : usesNegative system = false) :
+    step3Value system value = value := by
+  simp [step3Value, hu]
 
 /-- An unrepresentable value goes to the fallback style **with the original value** (sign restored):
 `step3` only asks for the fallback with the value `render_value` was called with. -/
@@ -424,62 +438,42 @@ theorem fallback_original_value (c : Desc) (system : String) (fixed : Option Int
     cases hsym : c.symbols with
     | none => simp [step3, hsym] at h
     | some syms =>
-      simp only [step3, hsym] at h
-      simp at h
-      split at h
-      · cases syms <;> simp at h
-      · by_cases hl : syms.length < 2 <;> simp [hl] at h
+      by_cases hl : syms.length < 2
+      · simp [step3, hsym, hl] at h
+      · simp only [step3, hsym, hl] at h
+        simp at h
+        split at h <;> simp at h
   by_cases h6 : system = "additive"
   · subst h6
-    have hu : usesNegative "additive" = true := by decide
+    have ho := orig_value "additive" value (by decide)
     cases hadd : c.additive with
     | none => simp [step3, hadd] at h
     | some tuples =>
-      simp only [step3, hadd] at h
+      simp only [step3, hadd, ho] at h
       simp at h
-      by_cases hneg : value < 0
-      · simp only [step3Value, hneg, hu, decide_true, Bool.and_self, if_true] at h
-        simp at h
-        split at h
-        · split at h <;> simp at h
-          omega
-        · split at h
-          · simp at h
-          · split at h <;> simp at h
-            omega
-      · simp only [step3Value, hneg, decide_false, Bool.false_and] at h
-        simp at h
-        split at h
+      split at h
+      · split at h <;> simp at h
+        exact h.symm
+      · split at h
+        · simp at h
         · split at h <;> simp at h
           exact h.symm
-        · split at h
-          · simp at h
-          · split at h <;> simp at h
-            exact h.symm
   simp [step3, h1, h2, h3, h4, h5, h6] at h
 
-/- Full statement (false of the code, see `Witness.C15.decimal_fallback_loses_sign`):
-   `step3 … = .decimal w → w = value` — the decimal fallback taken when a style has too few symbols
-   renders the value the style was asked to render. -/
-/-- What holds: the decimal fallback receives the value step 3 worked on, which is the original value
-whenever it is non-negative or the system does not use the negative sign. -/
-theorem decimal_fallback_value_partial (c : Desc) (system : String) (fixed : Option Int) (value w : Int)
-    (hv : 0 ≤ value ∨ usesNegative system = false)
+/-- **C15.decimal_fallback_value** (full strength since `fix:` 1bdaf16; before it the four sign-using
+systems handed `abs(value)` to decimal, finding `extends-own-symbols-loses-sign`): the decimal fallback
+taken when a style has too few symbols renders the value the style was asked to render. -/
+theorem decimal_fallback_value (c : Desc) (system : String) (fixed : Option Int) (value w : Int)
     (h : step3 c system fixed (step3Value system value) (decide (value < 0)) = .decimal w) : w = value := by
-  have hsv : step3Value system value = value := by
-    unfold step3Value
-    rcases hv with hv | hv
-    · have : ¬ value < 0 := by omega
-      simp [this]
-    · simp [hv]
-  rw [hsv] at h
   by_cases h1 : system = "cyclic"
   · subst h1
+    rw [step3Value_plain "cyclic" value (by decide)] at h
     cases hsym : c.symbols with
     | none => simp [step3, hsym] at h
     | some syms => by_cases hl : syms.length < 1 <;> simp [step3, hsym, hl] at h; exact h.symm
   by_cases h2 : system = "fixed"
   · subst h2
+    rw [step3Value_plain "fixed" value (by decide)] at h
     cases hsym : c.symbols with
     | none => simp [step3, hsym] at h
     | some syms =>
@@ -493,30 +487,43 @@ theorem decimal_fallback_value_partial (c : Desc) (system : String) (fixed : Opt
           split at h <;> simp at h
   by_cases h3 : system = "symbolic"
   · subst h3
-    cases hsym : c.symbols with
-    | none => simp [step3, hsym] at h
-    | some syms => by_cases hl : syms.length < 1 <;> simp [step3, hsym, hl] at h; exact h.symm
-  by_cases h4 : system = "alphabetic"
-  · subst h4
-    cases hsym : c.symbols with
-    | none => simp [step3, hsym] at h
-    | some syms => by_cases hl : syms.length < 2 <;> simp [step3, hsym, hl] at h; exact h.symm
-  by_cases h5 : system = "numeric"
-  · subst h5
+    have ho := orig_value "symbolic" value (by decide)
     cases hsym : c.symbols with
     | none => simp [step3, hsym] at h
     | some syms =>
-      simp only [step3, hsym] at h
-      simp at h
-      split at h
-      · cases syms <;> simp at h
-      · by_cases hl : syms.length < 2 <;> simp [hl] at h; exact h.symm
+      by_cases hl : syms.length < 1
+      · simp only [step3, hsym, hl, ho] at h
+        simp at h; exact h.symm
+      · simp [step3, hsym, hl] at h
+  by_cases h4 : system = "alphabetic"
+  · subst h4
+    have ho := orig_value "alphabetic" value (by decide)
+    cases hsym : c.symbols with
+    | none => simp [step3, hsym] at h
+    | some syms =>
+      by_cases hl : syms.length < 2
+      · simp only [step3, hsym, hl, ho] at h
+        simp at h; exact h.symm
+      · simp [step3, hsym, hl] at h
+  by_cases h5 : system = "numeric"
+  · subst h5
+    have ho := orig_value "numeric" value (by decide)
+    cases hsym : c.symbols with
+    | none => simp [step3, hsym] at h
+    | some syms =>
+      by_cases hl : syms.length < 2
+      · simp only [step3, hsym, hl, ho] at h
+        simp at h; exact h.symm
+      · simp only [step3, hsym, hl] at h
+        simp at h
+        split at h <;> simp at h
   by_cases h6 : system = "additive"
   · subst h6
+    have ho := orig_value "additive" value (by decide)
     cases hadd : c.additive with
     | none => simp [step3, hadd] at h
     | some tuples =>
-      simp only [step3, hadd] at h
+      simp only [step3, hadd, ho] at h
       simp at h
       split at h
       · split at h <;> simp at h
@@ -524,6 +531,16 @@ theorem decimal_fallback_value_partial (c : Desc) (system : String) (fixed : Opt
         · simp at h; exact h.symm
         · split at h <;> simp at h
   simp [step3, h1, h2, h3, h4, h5, h6] at h
+
+/-- **C15.numeric_never_indexes_empty** (since `fix:` 1bdaf16; before it `symbols[0]` was read before the
+length test, finding `extends-empty-symbols-index-error`): step 3 raises no IndexError, whatever the
+symbols. -/
+theorem step3_no_index_error (c : Desc) (system : String) (fixed : Option Int) (v : Int) (isNeg : Bool) :
+    step3 c system fixed v isNeg ≠ .err .indexError := by
+  unfold step3
+  intro h
+  repeat' split at h
+  all_goals first | (simp at h; done) | (simp at h; split at h <;> simp at h)
 
 /-- Only the four systems named by the specification use the `negative` descriptor. -/
 theorem usesNegative_iff (system : String) :
@@ -864,13 +881,10 @@ private theorem extLoop_noext (cs : Styles) (c : Desc) (system : String) (fixed 
 
 private theorem step3_numeric_initial (d : Desc) (syms : List Sym) (v : Int) (b : Bool) (fixed : Option Int)
     (hs : d.symbols = some syms) (hl : 2 ≤ syms.length) : ∃ s, step3 d "numeric" fixed v b = .initial s := by
+  have : ¬ syms.length < 2 := by omega
   by_cases hv : v = 0
-  · subst hv
-    cases syms with
-    | nil => simp at hl
-    | cons s rest => exact ⟨s.text, by simp [step3, hs]⟩
-  · have : ¬ syms.length < 2 := by omega
-    exact ⟨joinSyms syms (numDigits syms.length v.natAbs), by simp [step3, hs, hv, this]⟩
+  · exact ⟨symAt syms 0, by simp [step3, hs, hv, this]⟩
+  · exact ⟨joinSyms syms (numDigits syms.length v.natAbs), by simp [step3, hs, hv, this]⟩
 
 /-- A call `render_value(v, 'decimal')` needs one level only. -/
 private theorem decimal_call_ok (cs : Styles) (ht : DecimalTotal cs) (fuel : Nat) (v : Int) :
@@ -950,11 +964,11 @@ private theorem step3_no_recursion (c : Desc) (system : String) (fixed : Option 
     cases hsym : c.symbols with
     | none => simp [step3, hsym] at h
     | some syms =>
-      simp only [step3, hsym] at h
-      simp at h
-      split at h
-      · cases syms <;> simp at h
-      · by_cases hl : syms.length < 2 <;> simp [hl] at h
+      by_cases hl : syms.length < 2
+      · simp [step3, hsym, hl] at h
+      · simp only [step3, hsym, hl] at h
+        simp at h
+        split at h <;> simp at h
   by_cases h6 : system = "additive"
   · subst h6
     cases hadd : c.additive with
@@ -1719,11 +1733,10 @@ private theorem inRanges_total (v : Int) : ∀ (l : List RangeEntry), RangeEntry
       · exact ⟨true, rfl⟩
       · exact ih (fun hm => h (List.mem_cons_of_mem _ hm))
 
-/- Full statement (false of the code, `Witness.C15.range_auto_raises`): `inRange` never fails on a
-   `range` produced by the descriptor validator. -/
-/-- What holds: the range test fails only on a tuple containing the string `'auto'`
-(`range: auto` is stored as `('auto',)`). -/
-theorem range_test_total_partial (counter : Desc) (system : String) (v : Int)
+/-- The range test of `render_value` fails only on a tuple holding something that is not a pair.  No
+validator produces such a tuple since `fix:` 5be1d36 (`C15.range_test_total` in Props/C15Desc.lean is the
+full statement over validated descriptors; before the repair `range: auto` was stored as `('auto',)`). -/
+theorem range_test_total_pairs (counter : Desc) (system : String) (v : Int)
     (h : ∀ l, counter.range = some (.entries l) → RangeEntry.autoKw ∉ l) :
     ∃ b, inRange counter system v = .ok b := by
   cases hr : counter.range with
@@ -1753,6 +1766,18 @@ theorem unrepresentable_fallback (recur : Int → CName → Option (List CName) 
     renderTail recur value counter system fixed prev =
       recur value (.named (counter.fallback.getD "decimal")) (some prev) := by
   have := fallback_original_value counter system fixed value w h3
+  subst this
+  simp [renderTail, hin, h3]
+
+/-- **C15.too_few_symbols_decimal** (since `fix:` 1bdaf16, for every system and every sign): a resolved style
+whose algorithm has too few symbols (possible only through `extends`) renders the value exactly as `decimal`
+renders **that value** — `render_value(value, 'decimal')`. -/
+theorem too_few_symbols_decimal (recur : Int → CName → Option (List CName) → Except CErr String) (value w : Int)
+    (counter : Desc) (system : String) (fixed : Option Int) (prev : List CName)
+    (hin : inRange counter system value = .ok true)
+    (h3 : step3 counter system fixed (step3Value system value) (decide (value < 0)) = .decimal w) :
+    renderTail recur value counter system fixed prev = recur value (.named "decimal") none := by
+  have := decimal_fallback_value counter system fixed value w h3
   subst this
   simp [renderTail, hin, h3]
 
@@ -1837,7 +1862,7 @@ theorem ua_additive_descending : ∀ p ∈ Gen.uaCounterStyles,
     (p.2.additive.getD []).Pairwise (fun a b => a.1 > b.1) := by
   decide
 
-/-- No predefined style has the `('auto',)` range that makes `render_value` raise. -/
+/-- No predefined style has a range tuple holding a non-pair (which would make `render_value` raise). -/
 def rangeIsPairs : Option RangeDesc → Bool
   | some (.entries l) => !l.contains .autoKw
   | _ => true
